@@ -110,6 +110,24 @@ def kite_body(H, V):
         _expect_raise(H, "kite.circumcircle", lambda: k.circumcircle)
 
 
+def clockwise_body(H, V):
+    """Polygons whose vertices run clockwise about their (explicit) normal: the kite above and a triangle, as plain Polygon
+    objects with the normal opposite to the winding.  The in- and circumcircle do not depend on the orientation."""
+    from coxeter.shapes import Polygon
+
+    p_, q, w, tz = V["p"], V["q"], V["w"], V["tz"]
+    verts = [[0 * q, 0 * q, tz], [p_, -q, tz], [w, 0 * q, tz], [p_, q, tz]]  # counter-clockwise seen from +z
+    k = Polygon(H.arr(verts), normal=H.arr([H.num(0), H.num(0), H.num(-1)]), test_simple=False)
+    vs = [list(v) for v in k.vertices]
+    H.claim("clockwise.kite.signed_area<0", k.signed_area < 0)
+    _in_polygon_claims(H, "clockwise.kite.incircle", k.incircle, vs, list(k.normal))
+    tri = Polygon(H.arr([[0 * q, 0 * q, tz], [p_, q, tz], [w, 0 * q, tz]]), normal=H.arr([H.num(0), H.num(0), H.num(1)]), test_simple=False)  # clockwise seen from +z
+    tv = [list(v) for v in tri.vertices]
+    H.claim("clockwise.triangle.signed_area<0", tri.signed_area < 0)
+    _in_polygon_claims(H, "clockwise.triangle.incircle", tri.incircle, tv, list(tri.normal))
+    _circum_claims(H, "clockwise.triangle.circumcircle", tri.circumcircle, tv)
+
+
 def triangle_body(H, V):
     from coxeter.shapes import Polygon
 
@@ -374,6 +392,8 @@ def obligations(tier, seed):
         bounds="rectangle a x b at a free offset incl. out of the xy-plane: 5 free reals; incircle exists iff a = b (1 % margin)")
     add("C13/kite", ["p", "q", "w", "tz"], kite_body, positive=["p", "q", "w"], pre=lambda V: [V["w"] >= V["p"] + F(1, 2)] + unit("p", "q", "w")(V), first=dict(p=F(1), q=F(2), w=F(4), tz=F(-3)),
         bounds="kite (0,0),(p,-q),(w,0),(p,q): 3 free reals; always tangential, cyclic iff p(w-p) = q^2 (2 % margin)")
+    add("C13/clockwise", ["p", "q", "w", "tz"], clockwise_body, positive=["p", "q", "w"], pre=lambda V: [V["w"] >= V["p"] + F(1, 2)] + unit("p", "q", "w")(V), first=dict(p=F(1), q=F(2), w=F(4), tz=F(-3)),
+        bounds="kite and triangle listed clockwise about an explicit normal (plain Polygon), 3 free reals + free z offset")
     import math
 
     tri_first = {}
